@@ -294,7 +294,7 @@ class BuiltWorld:
         src = []
         made = []   # (method, factory name): methods produced by one shared def (same code object)
         for m in w["methods"]:
-            if m.get("factory") and not m["kwn"] and m["reqpos"] == len(m["pos"]) and m.get("body") in ("next", "leaf"):
+            if m.get("factory") and not m["kwn"] and m["reqpos"] == len(m["pos"]) and m.get("body") in ("next", "leaf", "fnext") and m.get("f", 1) == 1:
                 npos = len(m["pos"])
                 fac = f"_fac_{npos}_{m['body']}"
                 if not any(f == fac for _, f in made):
@@ -303,6 +303,8 @@ class BuiltWorld:
                             f"        _e = [mid_, [{names}], {{}}, None, None]", "        LOG.append(_e)"]
                     if m["body"] == "next":
                         body += [f"        _e[3] = ([{names}], {{}})", f"        return call_next({names})"]
+                    elif m["body"] == "fnext":
+                        body += [f"        _e[3] = ([{names}], {{}})", f"        return F1.next({names})"]
                     else:
                         body += ["        return ret_"]
                     body += ["    return fm"]
